@@ -35,3 +35,15 @@ let () = register "kfdc" (fun () -> print_milp (encode_kfdc (next_kfdc_inst ()))
 let () = register "reach" (fun () ->
   let g = next_stgraph () in let v = next_n () in let d = next () in
   print_endline ("OK " ^ s_nodes (if d = 0 then reach_fwd g v else reach_bwd g v)))
+(* mfdcsearch lb nE given(-1 = none) n (status tout)*  : status 0 optimal 1 infeasible 2 other, for k = lb, lb+1, ..
+   -> "SOLVED k" | "UNSOLVED" *)
+let () = register "mfdcsearch" (fun () ->
+  let lb = next () in let ne = next () in let g = next () in
+  let l = next_list (fun () -> let s = next () in let t = next_bool () in (s, t)) in
+  let get k = let j = int_of_nat k - lb in if j >= 0 && j < List.length l then Some (List.nth l j) else None in
+  let out k = match get k with Some (0, _) -> Optimal | Some (1, _) -> Infeasible | _ -> Other in
+  let tout k = match get k with Some (_, t) -> t | None -> false in
+  let given = if g < 0 then None else Some (nat_of_int g) in
+  match mfdc_solve out tout given (nat_of_int lb) (nat_of_int ne) with
+  | Solved k -> Printf.printf "SOLVED %d\n" (int_of_nat k)
+  | Unsolved -> print_endline "UNSOLVED")
